@@ -30,6 +30,8 @@ facade's initial state `init regP regK`.  History-level vocabulary (defined in P
 * `chg_chain`                   volume / output-device / focus notifications (old,new) form a
                                 chain from the initial value to the facade's current value,
                                 every link a real change (`chain_spec` spells it out);
+* `drained_post_exact`, `drained_change_exact`  at the property's granularity, exactly when
+                                (and with what) a listener IS called;
 * `chg_new_sublist`             the `new` values are, in order, values that were dispatched
                                 (and, for focus, dispatched by the Keyboard main protocol:
                                 `focus_only_main`).
@@ -201,6 +203,57 @@ theorem focus_only_main (st : St) (p : Proto) : st.accepts .foc p = true ↔ mai
   simp only [St.accepts, St.mainK]
   exact ⟨of_decide_eq_true, decide_eq_true⟩
 
+/-! ## The property's granularity, exactly
+
+At the granularity of the property (every event followed by a drain) the model also says
+when a notification IS delivered — stronger than the property's "only when"; the
+correspondence run compares exactly this with the real code. -/
+
+/-- After any drained history, producing state `s` on updater `p` notifies the user — once,
+    with exactly `(p, s)` — iff started, `s` differs from `p`'s previous post, `p` registered
+    an updater and `p` is the serving protocol; otherwise nothing is delivered. -/
+theorem drained_post_exact (regP regK : List Proto) (pre : List Ev) (p : Proto) (s : Val) :
+    (run (run (init regP regK) (drained pre)).1 [.post p s, .drain]).2 =
+      if startedAfter (drained pre) = true ∧ lastPost p (drained pre) ≠ some s ∧ p ∈ regP ∧
+          mainOf regP (run (init regP regK) (drained pre)).1.tkP = some p
+      then [.play p s] else [] := by
+  have ha := agrees_run (init regP regK) [] (drained pre) (agrees_init regP regK)
+  simp only [List.nil_append] at ha
+  have hq := drained_queue_nil pre (init regP regK) rfl
+  have hr := (run_reg (init regP regK) (drained pre)).1
+  generalize (run (init regP regK) (drained pre)).1 = st at ha hq hr
+  have hr' : st.regP = regP := hr
+  rw [← ha.2, ← ha.1 p, ← hr']
+  by_cases hc : st.postsThrough p s = true
+  · have hc' : st.lst = true ∧ st.prev p ≠ some s ∧ p ∈ st.regP := by
+      simp only [St.postsThrough, Bool.and_eq_true, decide_eq_true_eq] at hc
+      exact ⟨hc.1.2, hc.1.1, hc.2⟩
+    by_cases hm : mainOf st.regP st.tkP = some p
+    · simp [run, step, hc, hq, drainQ, runCb, St.mainP, hm, hc']
+    · simp [run, step, hc, hq, drainQ, runCb, St.mainP, hm]
+  · have hc' : ¬ (st.lst = true ∧ st.prev p ≠ some s ∧ p ∈ st.regP ∧ mainOf st.regP st.tkP = some p) := by
+      intro ⟨a, b, c, _⟩
+      apply hc
+      simp [St.postsThrough, a, b, c]
+    rw [if_neg hc']
+    simp [run, step, hc, hq, drainQ]
+
+/-- After any drained history, dispatching value `v` calls the listener — once, with
+    `(current, v)` — iff the filter accepts the sender and `v` differs from the current
+    value; otherwise not at all. -/
+theorem drained_change_exact (regP regK : List Proto) (pre : List Ev) (k : Kind) (p : Proto) (v : Val) :
+    (run (run (init regP regK) (drained pre)).1 [.change k p v, .drain]).2 =
+      if (run (init regP regK) (drained pre)).1.accepts k p = true ∧
+          v ≠ (run (init regP regK) (drained pre)).1.cur k
+      then [.chg k ((run (init regP regK) (drained pre)).1.cur k) v] else [] := by
+  have hq := drained_queue_nil pre (init regP regK) rfl
+  generalize (run (init regP regK) (drained pre)).1 = st at hq
+  by_cases ha : st.accepts k p = true
+  · by_cases hv : v = st.cur k
+    · simp [run, step, ha, hq, drainQ, runCb, hv]
+    · simp [run, step, ha, hq, drainQ, runCb, hv]
+  · simp [run, step, ha, hq, drainQ]
+
 /-! ## Non-vacuity -/
 
 -- a history that exercises duplicate suppression, takeover filtering, stop and restart
@@ -210,9 +263,23 @@ def demo : List Ev :=
 
 example : plays (run (init [0, 4] [0]) demo).2 = [(0, 1), (4, 2), (0, 1), (0, 1)] := by decide
 
+-- Reading of "differs from the status previously delivered by that updater": the comparison is
+-- with the state the updater *produced* before (what `post_update` compares with).  When that
+-- intermediate state was suppressed (another protocol held the takeover, or stopped), the user
+-- can see the same status twice in a row from one updater — allowed by this reading, and
+-- what the real code does (harness note `repeat_across_suppressed_state`).
+example : plays (run (init [0, 4] []) (drained
+    [.start, .post 0 1, .takeover 4 true false, .post 0 2, .release, .post 0 1])).2 = [(0, 1), (0, 1)] := by decide
+
 example : effPosts [0, 4] [] demo = [(0, 1), (0, 2), (4, 2), (0, 1), (0, 1)] := by decide
 
 example : lastPost 0 [.start, .post 0 1, .drain] = some 1 := by decide
+
+example : startedAfter (drained [.start, .post 0 1]) = true ∧ lastPost 0 (drained [.start, .post 0 1]) ≠ some 2 ∧
+    mainOf [0, 4] (run (init [0, 4] []) (drained [.start, .post 0 1])).1.tkP = some 0 := by decide
+
+example : (run (init [0] [0]) (drained [.change .foc 0 1])).1.accepts .foc 0 = true ∧
+    2 ≠ (run (init [0] [0]) (drained [.change .foc 0 1])).1.cur .foc := by decide
 
 example : Ev.start ∉ [Ev.post 0 2, .drain, .takeover 4 true false, .post 4 1] := by decide
 
